@@ -112,6 +112,7 @@ def build_experiment(spec, side=None, faults=None, only_triple=None):
         idx = [(e, l, v) for e in range(len(envs)) for l in range(len(lrns)) for v in range(len(vals))]
     else:
         idx = [(int(t[0] * len(envs)) % len(envs), t[1], t[2]) for t in spec["triples"]]
+        idx = [t for i, t in enumerate(idx) if t[2] is None or t not in idx[:i]]      # the same triple is not listed twice
     if only_triple is not None: idx = [idx[only_triple]]
     triples = [((envs[e], lrns[l], vals[v]) if v is not None else (envs[e], lrns[l])) for e, l, v in idx]
     return Experiment(triples), idx
